@@ -125,8 +125,8 @@ func filterSpellings(t string) []string {
 	add(strings.ReplaceAll(t, "!@", "! @"))
 	add(strings.ReplaceAll(t, "!$", "!  $"))
 	// dot vs bracket inside operands
-	add(strings.ReplaceAll(t, "@.a", "@['a']"))
-	add(strings.ReplaceAll(t, "$.b", "$[\"b\"]"))
+	add(replaceName(t, "@.a", "@['a']"))
+	add(replaceName(t, "$.b", "$[\"b\"]"))
 	add(strings.ReplaceAll(t, "@[0]", "@[ +0 ]"))
 	// literal spellings
 	add(strings.ReplaceAll(t, "true", "TRUE"))
@@ -240,4 +240,24 @@ func init() {
 		Assumptions:  append([]string{"spelling alternatives are produced per step from a table of the grammar's insignificant choices (spaces, quote style, sign and leading zeros, .* vs [*], .name vs ['name'], omitted $, omitted slice parts), 2..6 variants per path"}, commonAssumptions...),
 		ExpectLabels: []string{"both-parse-or-both-fail", "same-outcome", "same-values", "same-error-kind", "same-error-step"},
 	})
+}
+
+// replaceName replaces every occurrence of a dot-name operand head (such as
+// `@.a`) that is a whole name - not the beginning of a longer identifier such
+// as `@.agg()`.
+func replaceName(t, old, new string) string {
+	var sb strings.Builder
+	for i := 0; i < len(t); {
+		if strings.HasPrefix(t[i:], old) {
+			j := i + len(old)
+			if j >= len(t) || !(t[j] == '_' || t[j] >= '0' && t[j] <= '9' || t[j] >= 'a' && t[j] <= 'z' || t[j] >= 'A' && t[j] <= 'Z' || t[j] >= 0x80) {
+				sb.WriteString(new)
+				i = j
+				continue
+			}
+		}
+		sb.WriteByte(t[i])
+		i++
+	}
+	return sb.String()
 }
